@@ -80,6 +80,14 @@ class ScoreKind(AbsInt):
             return self.value(a[0], fr)
         if name in ('numpy.array', 'numpy.asarray') and a:
             return self.value(a[0], fr)
+        if name in ('numpy.argsort', 'numpy.lexsort') and a:
+            v = self.value(a[0], fr)
+            if isinstance(v, tuple) and v[0] == 'seq':
+                # argsort is the sorting permutation, not the rank of each candidate: entry i says which candidate is i-th
+                return ('perm', v[1], node, v[2])
+            if isinstance(v, tuple) and v[0] == 'perm':
+                return ('seq', v[1], v[3])  # argsort of argsort: the (ascending) rank of each candidate
+            return TOP
         if name in ('numpy.argmax', 'numpy.argmin') and a:
             v = self.value(a[0], fr)
             if isinstance(v, tuple) and v[0] == 'seq':
@@ -116,6 +124,13 @@ class ScoreKind(AbsInt):
         return base if node.attr == 'values' else TOP
 
     def binop(self, node, l, r, fr):
+        for x in (l, r):
+            if isinstance(x, tuple) and x and x[0] == 'perm':
+                # a sorting permutation combined arithmetically as if it were a per-candidate score
+                if not any(p[0] is x[2] for p in self.problems):
+                    self.problems.append((x[2], fr.fn, 'np.argsort gives the order in which the candidates sort, not the rank of each candidate: used as a '
+                                          'per-candidate score it attributes the scores to the wrong candidates whenever the ordering is not its own inverse'))
+                return ('seq', x[1], '?')
         if isinstance(l, tuple) and isinstance(r, tuple) and l[0] == r[0] == 'seq':
             if l[1] != r[1]:
                 self.problems.append((node, fr.fn, 'scores of different candidate lists are combined'))
@@ -128,6 +143,8 @@ class ScoreKind(AbsInt):
         if isinstance(l, tuple) and l[0] == 'seq' and r == 'k':
             return l
         if isinstance(r, tuple) and r[0] == 'seq' and l == 'k':
+            if isinstance(node.op, ast.Sub):
+                return ('seq', r[1], {'L': 'H', 'H': 'L'}.get(r[2], '?'))  # const - score reverses the order
             return r
         return TOP
 
